@@ -4,7 +4,7 @@
    state what the FIFO and LRU models guarantee in the property's own terms, and the membership
    laws that let the generic theorems (C05, C13, C18) apply to the containers. *)
 From Coq Require Import List NArith Bool Permutation Sorted.
-From FV Require Import Mem.Shard Mem.Algo Mem.Concrete Mem.AlgoThms Mem.SieveThms Mem.S3Thms.
+From FV Require Import Mem.Shard Mem.Algo Mem.Concrete Mem.AlgoThms Mem.SieveThms Mem.S3Thms Mem.LfuThms.
 Import ListNotations.
 Open Scope N_scope.
 
@@ -158,3 +158,32 @@ Example c14_nonvacuous_lru :
   LruInv (mkLru [] [mkEnt 0%nat 2 0; mkEnt 1%nat 2 1] [] 4 4) /\
   lru_pop (mkLru [] [mkEnt 0%nat 2 0; mkEnt 1%nat 2 1] [] 4 4) = Some (mkEnt 0%nat 2 0, mkLru [] [mkEnt 1%nat 2 1] [] 2 4).
 Proof. split; [constructor; reflexivity|reflexivity]. Qed.
+
+(* w-TinyLFU (Mem/LfuThms.v), every state, any sketch: pop is total; the admission duel between the window's oldest record
+   and probation's oldest record is decided by the estimated frequencies (strictly lower: the candidate goes, otherwise the
+   probation record), the protected segment is evicted from only when both others are empty; window overflow moves the
+   oldest window records to the back of probation, in order, until the window fits *)
+Theorem c14_lfu_pop_total : forall bucket s,
+  lfu_pop bucket s = None <-> f_window s = [] /\ f_probation s = [] /\ f_protected s = [].
+Proof. exact lfu_pop_none. Qed.
+Print Assumptions c14_lfu_pop_total.
+
+Theorem c14_lfu_victim_rule : forall bucket s e s',
+  lfu_pop bucket s = Some (e, s') ->
+  match f_window s, f_probation s with
+  | ewin :: _, epro :: _ =>
+      (lfu_freq bucket s (eh ewin) < lfu_freq bucket s (eh epro) -> e = ewin /\ f_probation s' = f_probation s)%N /\
+      (lfu_freq bucket s (eh epro) <= lfu_freq bucket s (eh ewin) -> e = epro /\ f_window s' = f_window s)%N
+  | ewin :: _, [] => e = ewin
+  | [], epro :: _ => e = epro
+  | [], [] => exists t', f_protected s = e :: t'
+  end /\ (f_window s <> [] \/ f_probation s <> [] -> f_protected s' = f_protected s).
+Proof. exact lfu_victim_rule. Qed.
+Print Assumptions c14_lfu_victim_rule.
+
+Theorem c14_lfu_window_overflow : forall w p ww pw cap w' p' ww' pw',
+  lfu_win_overflow w p ww pw cap = (w', p', ww', pw') -> ww = wsum w ->
+  p' ++ w' = p ++ w /\ (exists moved, p' = p ++ moved /\ w = moved ++ w') /\
+  ww' = wsum w' /\ (pw' = pw + (wsum w - wsum w'))%N /\ ((ww' <= cap)%N \/ w' = []).
+Proof. exact lfu_win_overflow_rule. Qed.
+Print Assumptions c14_lfu_window_overflow.
